@@ -191,14 +191,21 @@ struct Cat<T: Fl> {
     /// integer codes: equal code <=> equal value
     codes: Vec<Vec<i64>>,
     n: usize,
+    /// Library distances already observed in this job, [a][b][metric], filled lazily by real
+    /// library calls (the distances are pure functions of their arguments, so an entry is what any
+    /// later call on the same pair returns; a replay of a single case simply refills what it needs).
+    table: RefCell<Vec<f64>>,
 }
+
+/// "not computed yet" marker of the distance table (a NaN payload no computation produces)
+const UNSET: u64 = 0x7ff8_dead_beef_0001;
 
 fn build_cat<T: Fl>(vs: Vec<(String, Vec<f64>)>, scale: f64) -> Cat<T> {
     let n = vs.first().map(|v| v.1.len()).unwrap_or(0);
     let typed: Vec<Vec<T>> = vs.iter().map(|(_, v)| v.iter().map(|x| T::of(x * scale)).collect()).collect();
     let vals: Vec<Vec<f64>> = typed.iter().map(|v| v.iter().map(|x| x.f()).collect()).collect();
     let codes = vals.iter().map(|v| v.iter().map(|x| (x + 0.0).to_bits() as i64).collect()).collect();
-    Cat { names: vs.into_iter().map(|v| v.0).collect(), vals, typed, codes, n }
+    Cat { names: vs.into_iter().map(|v| v.0).collect(), vals, typed, codes, n, table: RefCell::new(Vec::new()) }
 }
 
 fn scale_of(job: &Job) -> f64 {
@@ -244,6 +251,33 @@ fn eval<T: Fl>(m: Met, mh: Option<&Mahalanobis<T, DenseMatrix<T>>>, c: &Cat<T>, 
     })
 }
 
+/// All 13 library distances of the ordered pair (a, b), through the job's table.
+fn table_row<T: Fl>(mh: Option<&Mahalanobis<T, DenseMatrix<T>>>, c: &Cat<T>, a: usize, b: usize) -> [f64; 13] {
+    let big = c.typed.len();
+    let at = (a * big + b) * METS.len();
+    {
+        let mut t = c.table.borrow_mut();
+        if t.is_empty() {
+            t.resize(big * big * METS.len(), f64::from_bits(UNSET));
+        }
+        if t[at].to_bits() != UNSET {
+            let mut r = [0.0; 13];
+            r.copy_from_slice(&t[at..at + 13]);
+            return r;
+        }
+    }
+    let mut r = [f64::NAN; 13];
+    for (mi, m) in METS.iter().enumerate() {
+        if *m == Met::MhI && mh.is_none() {
+            continue;
+        }
+        // a panic is reported by the execution whose pair this is; here it only leaves a NaN
+        r[mi] = eval(*m, mh, c, a, b).unwrap_or(f64::NAN);
+    }
+    c.table.borrow_mut()[at..at + 13].copy_from_slice(&r);
+    r
+}
+
 fn identity_maha<T: Fl>(n: usize) -> Result<Mahalanobis<T, DenseMatrix<T>>, mc::PanicInfo> {
     mc::guard(|| {
         let id: DenseMatrix<T> = mc_sc::dm::<T>(&mc::oracle::eye(n));
@@ -284,6 +318,39 @@ fn calib_threshold() -> Option<f64> {
     *THR.get_or_init(|| std::env::var("C17_CALIB").ok().and_then(|v| v.parse::<f64>().ok()))
 }
 
+thread_local! {
+    /// (current job, site keys already reported with their full message in this job)
+    static REPORTED: RefCell<(String, Vec<String>)> = RefCell::new((String::new(), Vec::new()));
+}
+
+/// Record a violation. The driver keeps the message of the first violation per (job, site key) and
+/// only counts the others, so the message is rendered for that first one only (rendering the inputs
+/// of hundreds of thousands of cases of an already known site would dominate the run time).
+fn report(site: impl Into<String>, what: impl FnOnce() -> String) {
+    let site = site.into();
+    let first = REPORTED.with(|r| {
+        let mut r = r.borrow_mut();
+        if r.1.contains(&site) {
+            false
+        } else {
+            r.1.push(site.clone());
+            true
+        }
+    });
+    // while a description is requested (sample, replay, re-run of a violating case) always render
+    if first || mc::sampling() {
+        mc::violation(site, what());
+    } else {
+        mc::violation(site, "(same site key as an earlier case of this job; message not rendered)");
+    }
+}
+
+macro_rules! viol {
+    ($site:expr, $what:expr $(,)?) => {
+        report($site, || $what)
+    };
+}
+
 fn site(comp: &str, clause: &str, class: Option<&'static str>) -> String {
     format!("{}.distance:{}", comp, class.unwrap_or(clause))
 }
@@ -303,7 +370,7 @@ fn judge_pair<T: Fl>(comp: &'static str, label: &str, class: Option<&'static str
         match r {
             Ok(v) => vals[k] = *v,
             Err(p) => {
-                mc::violation(format!("{}.distance:panic", comp), format!("{} {}: {} on equal-length finite vectors", label, ctx(), p.brief()));
+                viol!(format!("{}.distance:panic", comp), format!("{} {}: {} on equal-length finite vectors", label, ctx(), p.brief()));
                 return PairObs { dxy: f64::NAN, refv, tol: 0.0, ok: false };
             }
         }
@@ -312,19 +379,19 @@ fn judge_pair<T: Fl>(comp: &'static str, label: &str, class: Option<&'static str
     let tol = tol_units * T::EPS * refv;
     let mut ok = true;
     if dxy.is_nan() || dxy < 0.0 {
-        mc::violation(site(comp, "not-nonnegative", class), format!("{} {}: d(x,y) = {:e} is not a non-negative number (closed form {:e})", label, ctx(), dxy, refv));
+        viol!(site(comp, "not-nonnegative", class), format!("{} {}: d(x,y) = {:e} is not a non-negative number (closed form {:e})", label, ctx(), dxy, refv));
         ok = false;
     }
     if !(dxx == 0.0) {
-        mc::violation(site(comp, "identical-arguments", None), format!("{} {}: d(x,x) = {:e}, expected 0", label, ctx(), dxx));
+        viol!(site(comp, "identical-arguments", None), format!("{} {}: d(x,x) = {:e}, expected 0", label, ctx(), dxx));
         ok = false;
     }
     if same && !(dxy == 0.0) {
-        mc::violation(site(comp, "identical-arguments", None), format!("{} {}: x and y have identical components but d(x,y) = {:e}", label, ctx(), dxy));
+        viol!(site(comp, "identical-arguments", None), format!("{} {}: x and y have identical components but d(x,y) = {:e}", label, ctx(), dxy));
         ok = false;
     }
     if !((dxy - dyx).abs() <= tol || dxy == dyx) {
-        mc::violation(site(comp, "symmetry", class), format!("{} {}: d(x,y) = {:e} but d(y,x) = {:e}", label, ctx(), dxy, dyx));
+        viol!(site(comp, "symmetry", class), format!("{} {}: d(x,y) = {:e} but d(y,x) = {:e}", label, ctx(), dxy, dyx));
         ok = false;
     } else if dxy.to_bits() == dyx.to_bits() {
         mc::count("symmetry_bit_exact");
@@ -332,7 +399,7 @@ fn judge_pair<T: Fl>(comp: &'static str, label: &str, class: Option<&'static str
     if !same && !dxy.is_nan() && dxy >= 0.0 {
         let err = (dxy - refv).abs();
         if !(err <= tol) {
-            mc::violation(
+            viol!(
                 site(comp, "closed-form", class),
                 format!("{} {} [{}]: d(x,y) = {:e}, closed form {:e} (error {:.3e} = {:.1} eps_{} relative, allowed {:.1})", label, ctx(), T::NAME, dxy, refv, err, err / (T::EPS * refv), T::NAME, tol_units),
             );
@@ -386,7 +453,7 @@ fn lp_exec<T: Fl>(job: &Job) {
     let mh = match identity_maha::<T>(n) {
         Ok(m) => Some(m),
         Err(p) => {
-            mc::violation("mahalanobis.new_from_covariance:panic", format!("identity covariance of order {} [{}]: {}", n, T::NAME, p.brief()));
+            viol!("mahalanobis.new_from_covariance:panic", format!("identity covariance of order {} [{}]: {}", n, T::NAME, p.brief()));
             None
         }
     };
@@ -426,7 +493,7 @@ fn lp_exec<T: Fl>(job: &Job) {
             let class = l2.and_then(|l| METS[a].range_class::<T>(n, l).or(METS[b].range_class::<T>(n, l)));
             mc::count("coincidence_checks");
             if !((oa.dxy - ob.dxy).abs() <= oa.tol + ob.tol || oa.dxy == ob.dxy) {
-                mc::violation(site(comp, clause, class), format!("{} = {:e} but {} = {:e} for {} [{}]", METS[a].label(), oa.dxy, METS[b].label(), ob.dxy, ctx(), T::NAME));
+                viol!(site(comp, clause, class), format!("{} = {:e} but {} = {:e} for {} [{}]", METS[a].label(), oa.dxy, METS[b].label(), ob.dxy, ctx(), T::NAME));
             }
         }
     };
@@ -437,28 +504,35 @@ fn lp_exec<T: Fl>(job: &Job) {
     // triangle inequality through every z of the catalogue
     let (mut triples, mut tight) = (0u64, 0u64);
     if job.params["tri"].as_bool().unwrap_or(true) {
+        let near = 1.0 - 64.0 * T::EPS;
         for k in 0..big {
-            let zv = &c.vals[k];
-            let legs = [l2, max_l2(xv, zv), max_l2(zv, yv)];
+            let dxz_all = table_row(mh.as_ref(), &c, i, k);
+            let dzy_all = table_row(mh.as_ref(), &c, k, j);
             for (mi, m) in METS.iter().enumerate() {
                 let Some(o) = &obs[mi] else { continue };
-                if o.dxy.is_nan() {
+                let (dxz, dzy) = (dxz_all[mi], dzy_all[mi]);
+                if o.dxy.is_nan() || dxz.is_nan() || dzy.is_nan() {
+                    continue; // reported when (x,y) / (x,z) / (z,y) is the pair of an execution
+                }
+                triples += 1;
+                let sum = dxz + dzy;
+                if o.dxy <= sum {
+                    if o.dxy > 0.0 && dxz > 0.0 && dzy > 0.0 && o.dxy >= sum * near {
+                        tight += 1;
+                    }
                     continue;
                 }
-                let (dxz, dzy) = match (eval(*m, mh.as_ref(), &c, i, k), eval(*m, mh.as_ref(), &c, k, j)) {
-                    (Ok(a), Ok(b)) => (a, b),
-                    _ => continue, // reported when (x,z) / (z,y) is the pair of an execution
-                };
-                triples += 1;
                 let rel = m.tol_units(n, o.refv).max(m.tol_units(n, dxz)).max(m.tol_units(n, dzy)) * T::EPS;
                 if !triangle_ok(o.dxy, dxz, dzy, rel) {
                     // an intermediate of any of the three legs out of range?
+                    let zv = &c.vals[k];
+                    let legs = [l2, max_l2(xv, zv), max_l2(zv, yv)];
                     let class = legs.iter().flatten().find_map(|l| m.range_class::<T>(n, *l));
-                    mc::violation(
+                    viol!(
                         site(m.comp(), "triangle", class),
                         format!("{} {} z={:?} [{}]: d(x,y) = {:e} > d(x,z) + d(z,y) = {:e} + {:e}", m.label(), ctx(), zv, T::NAME, o.dxy, dxz, dzy),
                     );
-                } else if o.dxy > 0.0 && dxz > 0.0 && dzy > 0.0 && o.dxy >= (dxz + dzy) * (1.0 - rel) {
+                } else {
                     tight += 1;
                 }
             }
@@ -502,6 +576,7 @@ fn cov_catalogue<T: Fl>(job: &Job) -> CovCat<T> {
         "spd2" => cat::spd2(),
         "spd3q" => cat::spd3(2, &[0, 1, -1]),
         "spd3t" => cat::spd3(3, &[0, 1, -1, 2, -2]),
+        "spd4" => cat::spd4(),
         "struct" => cat::spd_structured(n),
         other => panic!("unknown covariance set {}", other),
     };
@@ -551,7 +626,7 @@ fn mcov_exec<T: Fl>(job: &Job) {
     let md = match mc::guard(|| Mahalanobis::new_from_covariance(&mc_sc::dm::<T>(sigma))) {
         Ok(m) => m,
         Err(p) => {
-            mc::violation("mahalanobis.new_from_covariance:panic", format!("{}: {}", what(), p.brief()));
+            viol!("mahalanobis.new_from_covariance:panic", format!("{}: {}", what(), p.brief()));
             return;
         }
     };
@@ -572,7 +647,7 @@ fn mcov_exec<T: Fl>(job: &Job) {
         if let Ok(e) = mc::guard(|| Distances::euclidian().distance(&q.typed[i], &q.typed[j]).f()) {
             mc::count("coincidence_checks");
             if !((e - o.dxy).abs() <= o.tol + (8.0 + n as f64) * T::EPS * refv || e == o.dxy) {
-                mc::violation(site("mahalanobis", "identity-vs-euclidian", class), format!("Mahalanobis(I) = {:e} but Euclidian = {:e} for {}", o.dxy, e, ctx()));
+                viol!(site("mahalanobis", "identity-vs-euclidian", class), format!("Mahalanobis(I) = {:e} but Euclidian = {:e} for {}", o.dxy, e, ctx()));
             }
         }
     } else if !is_identity {
@@ -587,7 +662,7 @@ fn mcov_exec<T: Fl>(job: &Job) {
             if !triangle_ok(o.dxy, dxz, dzy, rel) {
                 let legs = [max_l2(xv, yv), max_l2(xv, &q.vals[k]), max_l2(&q.vals[k], yv)];
                 let class = legs.iter().flatten().find_map(|l| maha_class::<T>(n, *l, dd::ilog2(inv_max)));
-                mc::violation(site("mahalanobis", "triangle", class), format!("Mahalanobis {} z={:?}: d(x,y) = {:e} > d(x,z) + d(z,y) = {:e} + {:e}", ctx(), q.vals[k], o.dxy, dxz, dzy));
+                viol!(site("mahalanobis", "triangle", class), format!("Mahalanobis {} z={:?}: d(x,y) = {:e} > d(x,z) + d(z,y) = {:e} + {:e}", ctx(), q.vals[k], o.dxy, dxz, dzy));
             } else if o.dxy > 0.0 && dxz > 0.0 && dzy > 0.0 && o.dxy >= (dxz + dzy) * (1.0 - rel) {
                 tight += 1;
             }
@@ -633,7 +708,7 @@ fn mdata_exec<T: Fl>(job: &Job) {
     let md = match mc::guard(|| Distances::mahalanobis(&mc_sc::dm::<T>(&rows))) {
         Ok(v) => v,
         Err(p) => {
-            mc::violation("mahalanobis.new:panic", format!("{}: {}", what(), p.brief()));
+            viol!("mahalanobis.new:panic", format!("{}: {}", what(), p.brief()));
             return;
         }
     };
@@ -679,7 +754,7 @@ fn mdata_exec<T: Fl>(job: &Job) {
                 }
                 triples += 1;
                 if !triangle_ok(dxy, dxz, dzy, rel) {
-                    mc::violation("mahalanobis.distance:triangle", format!("Mahalanobis(from data) {} x={:?} y={:?} z={:?}: d(x,y) = {:e} > d(x,z) + d(z,y) = {:e} + {:e}", what(), q.vals[i], q.vals[j], q.vals[k], dxy, dxz, dzy));
+                    viol!("mahalanobis.distance:triangle", format!("Mahalanobis(from data) {} x={:?} y={:?} z={:?}: d(x,y) = {:e} > d(x,z) + d(z,y) = {:e} + {:e}", what(), q.vals[i], q.vals[j], q.vals[k], dxy, dxz, dzy));
                 } else if dxy > 0.0 && dxz > 0.0 && dzy > 0.0 && dxy >= (dxz + dzy) * (1.0 - rel) {
                     tight += 1;
                 }
@@ -723,7 +798,7 @@ fn mismatch_exec<T: Fl>(_job: &Job) {
         let md = match mc::guard(|| Mahalanobis::new_from_covariance(&mc_sc::dm::<T>(&cov))) {
             Ok(m) => m,
             Err(p) => {
-                mc::violation("mahalanobis.new_from_covariance:panic", format!("covariance {:?} [{}]: {}", cov, T::NAME, p.brief()));
+                viol!("mahalanobis.new_from_covariance:panic", format!("covariance {:?} [{}]: {}", cov, T::NAME, p.brief()));
                 return;
             }
         };
@@ -734,10 +809,10 @@ fn mismatch_exec<T: Fl>(_job: &Job) {
     let ys: Vec<f64> = y.iter().map(|v| v.f()).collect();
     match (&r, expect_reject) {
         (Ok(v), true) => {
-            mc::violation(format!("{}.distance:mismatched-lengths-accepted", comp), format!("{} [{}]: x={:?} (length {}) y={:?} (length {}) was not rejected, returned {:e}", label, T::NAME, xs, lx, ys, ly, v));
+            viol!(format!("{}.distance:mismatched-lengths-accepted", comp), format!("{} [{}]: x={:?} (length {}) y={:?} (length {}) was not rejected, returned {:e}", label, T::NAME, xs, lx, ys, ly, v));
         }
         (Err(p), false) => {
-            mc::violation(format!("{}.distance:panic", comp), format!("{} [{}]: x={:?} y={:?} of matching length: {}", label, T::NAME, xs, ys, p.brief()));
+            viol!(format!("{}.distance:panic", comp), format!("{} [{}]: x={:?} y={:?} of matching length: {}", label, T::NAME, xs, ys, p.brief()));
         }
         (Err(_), true) => mc::count("mismatched_lengths_rejected"),
         (Ok(_), false) => mc::count("matching_lengths_accepted"),
@@ -753,6 +828,13 @@ fn mismatch_exec<T: Fl>(_job: &Job) {
 // ------------------------------------------------------------------------------------------------
 
 fn dispatch(job: &Job) {
+    REPORTED.with(|r| {
+        let mut r = r.borrow_mut();
+        if r.0 != job.name {
+            r.0 = job.name.clone();
+            r.1.clear();
+        }
+    });
     let f32_ = job.s("ty") == "f32";
     match (job.kind(), f32_) {
         ("lp", false) => lp_exec::<f64>(job),
@@ -769,18 +851,22 @@ fn dispatch(job: &Job) {
 
 const TYPES: [&str; 2] = ["f64", "f32"];
 
-/// lp jobs for one vector catalogue of `count` vectors, split into chunks of x so that one job stays
-/// around a second.
+/// lp jobs for one vector catalogue of `count` vectors, split into chunks of x. Every job with the
+/// triangle clause fills the whole table of library distances of its catalogue once, so the chunks
+/// are kept coarse.
 #[allow(clippy::too_many_arguments)]
-fn push_lp(jobs: &mut Vec<Job>, src: &str, alpha: &str, len: usize, full: bool, count: usize, chunks: usize, sc10: i64, sc2: i64, ty: &str, seed: u64) {
+fn push_lp(jobs: &mut Vec<Job>, src: &str, alpha: &str, len: usize, full: bool, count: usize, chunks: usize, tri: bool, sc10: i64, sc2: i64, ty: &str, seed: u64) {
     let chunks = chunks.max(1).min(count.max(1));
     for c in 0..chunks {
         let (lo, hi) = (count * c / chunks, count * (c + 1) / chunks);
         let what = if src == "lattice" { format!("{}^{}", alpha, len) } else { format!("structured{}-n{}", if full { "-full" } else { "" }, len) };
-        let name = format!("lp-{}-x1e{}x2^{}-{}-part{}of{}", what, sc10, sc2, ty, c + 1, chunks);
-        jobs.push(Job::new(name, json!({"kind": "lp", "src": src, "alpha": alpha, "len": len, "full": full, "sc10": sc10, "sc2": sc2, "ty": ty, "lo": lo, "hi": hi, "seed": seed})));
+        let name = format!("lp-{}{}-x1e{}x2^{}-{}-part{}of{}", what, if tri { "" } else { "-pairs" }, sc10, sc2, ty, c + 1, chunks);
+        jobs.push(Job::new(name, json!({"kind": "lp", "src": src, "alpha": alpha, "len": len, "full": full, "tri": tri, "sc10": sc10, "sc2": sc2, "ty": ty, "lo": lo, "hi": hi, "seed": seed})));
     }
 }
+
+const ALL_SCALES: &[i64] = &[0, -6, 6];
+const UNIT_SCALE: &[i64] = &[0];
 
 impl Harness for C17 {
     fn id(&self) -> &'static str {
@@ -793,18 +879,47 @@ impl Harness for C17 {
         for ty in TYPES {
             jobs.push(Job::new(format!("mismatch-{}", ty), json!({"kind": "mismatch", "ty": ty})));
         }
-        // ---- lattices: (alphabet, len, chunks) simplest first
-        let lattices: Vec<(&str, usize, usize)> = if t {
-            vec![("S5", 1, 1), ("S9", 1, 1), ("S5", 2, 1), ("S9", 2, 2), ("S3", 3, 1), ("MIX", 2, 1), ("S5", 3, 6), ("MIX", 3, 6), ("S3", 4, 2), ("S3", 5, 12), ("S5", 4, 64), ("MIX", 4, 64), ("S9", 3, 128)]
+        // ---- lattices: (alphabet, len, chunks, with triangle clause, scales, types) simplest first.
+        // With the triangle clause every ordered triple of the lattice is covered; the largest
+        // lattices (thorough) are enumerated as pairs only.
+        type L = (&'static str, usize, usize, bool, &'static [i64], &'static [&'static str]);
+        let lattices: Vec<L> = if t {
+            vec![
+                ("S5", 1, 1, true, ALL_SCALES, &TYPES),
+                ("S9", 1, 1, true, ALL_SCALES, &TYPES),
+                ("S5", 2, 1, true, ALL_SCALES, &TYPES),
+                ("S9", 2, 1, true, ALL_SCALES, &TYPES),
+                ("S3", 3, 1, true, ALL_SCALES, &TYPES),
+                ("MIX", 2, 1, true, UNIT_SCALE, &TYPES),
+                ("S5", 3, 2, true, ALL_SCALES, &TYPES),
+                ("MIX", 3, 2, true, UNIT_SCALE, &TYPES),
+                ("S3", 4, 1, true, ALL_SCALES, &TYPES),
+                ("S3", 5, 4, true, ALL_SCALES, &TYPES),
+                ("S5", 4, 16, true, ALL_SCALES, &TYPES),
+                ("MIX", 4, 16, true, UNIT_SCALE, &TYPES),
+                ("S9", 3, 16, true, UNIT_SCALE, &TYPES),
+                ("S3", 6, 16, true, UNIT_SCALE, &TYPES),
+                ("S3", 7, 24, false, ALL_SCALES, &TYPES),
+                ("S5", 5, 48, false, UNIT_SCALE, &TYPES),
+                ("S9", 4, 192, false, UNIT_SCALE, &["f64"]),
+            ]
         } else {
-            vec![("S5", 1, 1), ("S5", 2, 1), ("S3", 3, 1), ("MIX", 2, 1), ("S5", 3, 4), ("S3", 4, 2), ("MIX", 3, 4)]
+            vec![
+                ("S5", 1, 1, true, ALL_SCALES, &TYPES),
+                ("S5", 2, 1, true, ALL_SCALES, &TYPES),
+                ("S3", 3, 1, true, ALL_SCALES, &TYPES),
+                ("MIX", 2, 1, true, UNIT_SCALE, &TYPES),
+                ("S5", 3, 2, true, ALL_SCALES, &TYPES),
+                ("S3", 4, 1, true, ALL_SCALES, &TYPES),
+                ("MIX", 3, 2, true, UNIT_SCALE, &TYPES),
+                ("S3", 5, 4, true, ALL_SCALES, &TYPES),
+            ]
         };
-        for (alpha, len, chunks) in &lattices {
+        for (alpha, len, chunks, tri, scales, types) in &lattices {
             let count = cat::alphabet(alpha).len().pow(*len as u32);
-            let scales: &[i64] = if *alpha == "MIX" || count > 600 { &[0] } else { &[0, -6, 6] };
-            for sc10 in scales {
-                for ty in TYPES {
-                    push_lp(&mut jobs, "lattice", alpha, *len, false, count, *chunks, *sc10, 0, ty, seed);
+            for sc10 in scales.iter() {
+                for ty in types.iter() {
+                    push_lp(&mut jobs, "lattice", alpha, *len, false, count, *chunks, *tri, *sc10, 0, ty, seed);
                 }
             }
         }
@@ -813,7 +928,7 @@ impl Harness for C17 {
         for (ty, exps) in extreme {
             for sc2 in exps {
                 for len in 1..=(if t { 3 } else { 2 }) {
-                    push_lp(&mut jobs, "lattice", "S3", len, false, 3usize.pow(len as u32), 1, 0, *sc2, ty, seed);
+                    push_lp(&mut jobs, "lattice", "S3", len, false, 3usize.pow(len as u32), 1, true, 0, *sc2, ty, seed);
                 }
             }
         }
@@ -822,18 +937,19 @@ impl Harness for C17 {
             let count = cat::structured(n, t).len();
             for sc10 in [0i64, -6, 6] {
                 for ty in TYPES {
-                    push_lp(&mut jobs, "structured", "-", n, t, count, if t { 1 + n / 4 } else { 1 }, sc10, 0, ty, seed);
+                    push_lp(&mut jobs, "structured", "-", n, t, count, 1, true, sc10, 0, ty, seed);
                 }
             }
         }
         // ---- Mahalanobis from covariance matrices
         let cov_scales: &[i64] = if t { &[0, 20, -20, 40, -40] } else { &[0, 20, -20] };
+        let set3 = if t { "spd3t" } else { "spd3q" };
+        let n3 = if t { cat::spd3(3, &[0, 1, -1, 2, -2]).len() } else { cat::spd3(2, &[0, 1, -1]).len() };
+        let n4 = if t { cat::spd4().len() } else { 0 };
         for ty in TYPES {
             for cs2 in cov_scales {
                 for sc10 in [0i64, -6, 6] {
                     jobs.push(Job::new(format!("mcov-spd2-cov2^{}-x1e{}-{}", cs2, sc10, ty), json!({"kind": "mcov", "set": "spd2", "dim": 2, "queries": "S5", "cs2": cs2, "sc10": sc10, "ty": ty})));
-                    let set3 = if t { "spd3t" } else { "spd3q" };
-                    let n3 = if t { cat::spd3(3, &[0, 1, -1, 2, -2]).len() } else { cat::spd3(2, &[0, 1, -1]).len() };
                     let chunks = if t { 16 } else { 2 };
                     for c in 0..chunks {
                         jobs.push(Job::new(
@@ -843,26 +959,58 @@ impl Harness for C17 {
                     }
                 }
             }
+            if t {
+                // every small integer SPD 4x4 on S3^4 (6561 pairs x 81 z per matrix)
+                let chunks = 32;
+                for c in 0..chunks {
+                    jobs.push(Job::new(
+                        format!("mcov-spd4-cov2^0-x1e0-{}-part{}of{}", ty, c + 1, chunks),
+                        json!({"kind": "mcov", "set": "spd4", "dim": 4, "queries": "S3", "cs2": 0, "sc10": 0, "ty": ty, "mlo": n4 * c / chunks, "mhi": n4 * (c + 1) / chunks}),
+                    ));
+                }
+            }
             for n in 4..=(if t { 12 } else { 8 }) {
                 for sc10 in [0i64, 6] {
                     jobs.push(Job::new(format!("mcov-structured-n{}-x1e{}-{}", n, sc10, ty), json!({"kind": "mcov", "set": "struct", "dim": n, "queries": "structured", "cs2": 0, "sc10": sc10, "ty": ty})));
                 }
             }
         }
-        // ---- Mahalanobis from data: (d, m, ordered)
-        let data: Vec<(usize, usize, bool)> = if t {
-            vec![(1, 2, true), (1, 3, true), (1, 4, true), (1, 5, true), (2, 3, true), (2, 4, true), (2, 5, true), (2, 6, false), (3, 4, true), (3, 5, false)]
+        // ---- Mahalanobis from data: (d, m, ordered sequences / multisets, data scales 2^k, types)
+        const DS_ALL: &[i64] = &[0, 20, -20];
+        type D = (usize, usize, bool, &'static [i64], &'static [&'static str]);
+        let data: Vec<D> = if t {
+            vec![
+                (1, 2, true, DS_ALL, &TYPES),
+                (1, 3, true, DS_ALL, &TYPES),
+                (1, 4, true, DS_ALL, &TYPES),
+                (1, 5, true, DS_ALL, &TYPES),
+                (2, 3, true, DS_ALL, &TYPES),
+                (2, 4, true, DS_ALL, &TYPES),
+                (2, 5, true, DS_ALL, &TYPES),
+                (2, 6, true, UNIT_SCALE, &TYPES),
+                (2, 7, false, DS_ALL, &TYPES),
+                (3, 4, true, DS_ALL, &TYPES),
+                (3, 5, false, DS_ALL, &TYPES),
+                (3, 5, true, UNIT_SCALE, &["f64"]),
+            ]
         } else {
-            vec![(1, 2, true), (1, 3, true), (1, 4, true), (2, 3, true), (2, 4, true), (2, 5, true), (3, 4, false)]
+            vec![
+                (1, 2, true, UNIT_SCALE, &TYPES),
+                (1, 3, true, UNIT_SCALE, &TYPES),
+                (1, 4, true, UNIT_SCALE, &TYPES),
+                (2, 3, true, UNIT_SCALE, &TYPES),
+                (2, 4, true, UNIT_SCALE, &TYPES),
+                (2, 5, true, UNIT_SCALE, &TYPES),
+                (3, 4, false, UNIT_SCALE, &TYPES),
+            ]
         };
-        for (d, m, ordered) in data {
-            let np = cat::data_points(d).len();
-            let dscales: &[i64] = if t { &[0, 20, -20] } else { &[0] };
-            for ds2 in dscales {
-                for ty in TYPES {
+        for (d, m, ordered, dscales, types) in &data {
+            let np = cat::data_points(*d).len();
+            for ds2 in dscales.iter() {
+                for ty in types.iter() {
                     for r0 in 0..np {
                         jobs.push(Job::new(
-                            format!("mdata-d{}-m{}-{}-x2^{}-{}-first{}", d, m, if ordered { "sequences" } else { "multisets" }, ds2, ty, r0),
+                            format!("mdata-d{}-m{}-{}-x2^{}-{}-first{}", d, m, if *ordered { "sequences" } else { "multisets" }, ds2, ty, r0),
                             json!({"kind": "mdata", "d": d, "m": m, "ordered": ordered, "ds2": ds2, "ty": ty, "r0": r0}),
                         ));
                     }
@@ -891,13 +1039,13 @@ impl Harness for C17 {
             bounds: json!({
                 "types": "f64 and f32 for every family",
                 "metrics": "Euclidian, Manhattan, Minkowski p=1..8, Hamming over float and over i64 elements, Mahalanobis(identity) on every pair; Mahalanobis from covariance / from data in their own families",
-                "lattices": lattices.iter().map(|(a, l, _)| format!("{}^{}", a, l)).collect::<Vec<_>>(),
-                "lattice_scales": "1, 1e-6, 1e6; scale 1 only for the large lattices S5^4 (625 vectors), S9^3 (729 vectors) and for alphabet MIX = {0,1,-1e6,1e-6,-3}, which mixes magnitudes inside a vector",
+                "lattices": lattices.iter().map(|(a, l, _, tri, sc, ty)| format!("{}^{} ({}; {} scale(s); {})", a, l, if *tri { "pairs and triples" } else { "pairs only" }, sc.len(), ty.join("+"))).collect::<Vec<_>>(),
+                "lattice_scales": "1, 1e-6, 1e6 where 3 scales are listed; alphabet MIX = {0,1,-1e6,1e-6,-3} mixes magnitudes inside a vector",
                 "extreme_scales": "S3^len (len<=2 quick / 3 thorough) times 2^{±520,-540,±600} (f64), 2^{±70,-80,±100} (f32)",
-                "pairs_and_triples": "every ordered pair (x,y) of each catalogue is one execution; inside it every z of the catalogue is used for the triangle inequality, so every ordered triple is covered",
+                "pairs_and_triples": "every ordered pair (x,y) of each catalogue is one execution; inside it every z of the catalogue is used for the triangle inequality (library distances d(x,z), d(z,y) come from a per-job table filled by real library calls), so every ordered triple is covered — except for the lattices marked 'pairs only'",
                 "structured": format!("every length 1..30, {} catalogue (zero, ones, ramps, alternating, unit vectors, one-coordinate modifications incl. +1e-9, mixed magnitudes, fractions), scales 1, 1e-6, 1e6", if t { "full" } else { "reduced" }),
                 "mahalanobis_covariance": format!("every integer SPD 2x2 with |entries|<=3 on S5^2; every integer SPD 3x3 with {} and cond2<=1e4 on S3^3; structured SPD families (identity, Toeplitz(2,-1), min(i,j), rank-one+ridge, graded diagonal, D*T*D) of order 4..{}; covariance scaled by 2^k, k in {:?}; vector scales 1, 1e-6, 1e6", if t { "diag 1..3, off-diag in -2..2" } else { "diag 1..2, off-diag in -1..1" }, if t { 12 } else { 8 }, cov_scales),
-                "mahalanobis_data": "every sequence (or multiset where stated) of m lattice rows in d dimensions with positive-definite sample covariance; all pairs and triples of the lattice (d<=2) / 8 fixed points (d=3) as arguments",
+                "mahalanobis_data": format!("rows from S5 (d=1) / S3^d (d=2,3); (d, m, sequences|multisets, data scales 2^k, types): {:?}; every data set with positive-definite sample covariance; all pairs and triples of the lattice (d<=2) / 8 fixed points (d=3) as arguments", data.iter().map(|(d, m, o, sc, ty)| format!("d={} m={} {} 2^{:?} {}", d, m, if *o { "sequences" } else { "multisets" }, sc, ty.join("+"))).collect::<Vec<_>>()),
                 "mismatched_lengths": "every metric x lengths 0..4 x 0..4 (Mahalanobis of order 1..3) x {prefix-consistent, distinct} contents",
                 "seed": format!("perturbation {:?} (a*v+b) of the lattice alphabets", cat::perturbation(seed)),
             }),
